@@ -31,6 +31,11 @@ META = {
         "design_ref": "§5 C19", "note": TB + "modelled not verified: zeroize's IterMut impl, const-default's primitive impls, const evaluation.",
         "technique": "Lean 4 induction over the binary storage shape on regenerated struct-literal initialisers + element-wise correspondence",
     },
+    "C20": {
+        "text": "The arms of arr!, box_arr! and box_arr_helper! are regenerated from src/arr.rs (matcher shape, recognised transcriber shape incl. whether only const fns are called). arr_list: for every list of element expressions and any trailing commas, the first matching arm yields length = element count, the values in order and an evaluation log that is exactly the operands' effects once each, left to right, and is const-usable; arr_repeat_ty / arr_repeat_const: N copies, operand evaluated once; arr_denotes (all forms); box_denotes: box_arr! yields the same length, values and log, and the length inferred from the unit array equals the vector's length so the unchecked unwrap in __from_vec_helper never sees an error (uses the regenerated try_from_vec guard); box_eq_arr; list_log_exact. Correspondence: generated real invocations at every element count 0..=64,100,128,255,256 with index-logging operands, both repeat forms over the lattice, Copy/non-Copy, plus a compiled corpus of const/static/const-fn uses.",
+        "design_ref": "§5 C20", "note": TB + "modelled not verified: macro_rules matching, evaluation order of literals and vec!, const-ness of std functions.",
+        "technique": "Lean 4 proofs over regenerated macro arms (arm selection + transcriber evaluation) + generated-invocation and const-item corpus correspondence",
+    },
     "C17": {
         "text": "serialize_shape (a tuple of declared length N with exactly the N elements in order, no extra framing); ok_iff / no_partial: visit_seq returns Ok exactly when the source delivers N elements and then no surplus (an up-front hint != N rejects before any read; short, long and failing sources are errors) and an Ok array is always the N delivered elements; roundtrip; read_ledger: on every path each element read so far is either in the returned array or dropped exactly once, nothing uninitialised is dropped (by the fill-loop ledger of C04/C07 instantiated with the scripted source). Guards (hint comparison, position == N, probe condition, finish-after-probe order) are regenerated from src/impl_serde.rs. Correspondence: scripted SeqAccess sources with event order, plus real serde_json, serde_json::Value and bincode inputs of every length around N with malformed elements.",
         "design_ref": "§5 C17", "note": TB + "modelled not verified: serde data-format crates; SeqAccess contract.",
